@@ -48,6 +48,7 @@ SITE2I = "xdsl.interpreters.pdl_interp.PDLInterpFunctions"
 SITE_BOTH = "xdsl.transforms.apply_pdl_interp.ApplyPDLInterpPass"
 SITE_PASS = {"pdl": "xdsl.transforms.apply_pdl.ApplyPDLPass", "pdl_interp": "xdsl.transforms.apply_pdl_interp.ApplyPDLInterpPass"}
 DRIVE_FUEL = 400
+LEAN_PRE = 4        # reset, pat, ir, hdr
 
 
 # ---------------------------------------------------------------------------------------------
@@ -425,7 +426,11 @@ def classify(case: Case, d: dict) -> tuple[str, str, str]:
 def lean_lines(case: Case) -> tuple[list[str], P.Interner]:
     assert case.p is not None and case.pl is not None
     I = P.Interner(case.p, case.pl)
-    lines = ["reset", P.encode_pattern(case.p, I), P.encode_ir(case.pl, I)]
+    h = P.hdr_of(case.p)
+    # header of the pdl.pattern op: carried by the model's PatternOp, which no function of the specification reads
+    # (header_irrelevant); the real paths ran under this header and are compared with the header-blind denotation
+    lines = ["reset", P.encode_pattern(case.p, I), P.encode_ir(case.pl, I),
+             f"hdr {h['benefit']} {0 if h['sym'] is None else 1 + sum(h['sym'].encode()) % 1000}"]
     for i in range(case.n):
         lines += [f"match {i}", f"apply {i}"]
     if case.drive is not None:
@@ -565,6 +570,15 @@ def report(ctx: core.Ctx, case: Case, d: dict) -> None:
     expected: dict = {"reference": dd.get("ref")}
     if dd["where"] != "op" and small.drive is not None:
         expected = {"reference_driver": P.canon_line(small.drive) if isinstance(small.drive, dict) else small.drive}
+    if small.p is not None and P.hdr_of(small.p) != P.HDR_DEFAULT and small is not case:
+        # (the shrinker tries the default header first: a header that survived is needed for the difference)
+        try:
+            q = {k: v for k, v in small.p.items() if k != "hdr"}
+            if not still_differs(q, "", small.pl, (site, sig), dd.get("op")):
+                desc += f"; only under the header `{P.header_text(P.hdr_of(small.p))}` — with `pdl.pattern : benefit(1)` the same " \
+                        "pattern and payload show no such difference, although the header is not part of what a single pattern denotes"
+        except Exception:  # noqa: BLE001
+            pass
     ctx.fail(site, sig, body, desc,
              {"pdl": dd.get("pdl"), "pdl_interp": dd.get("pdl_interp")}, expected)
 
@@ -587,6 +601,20 @@ def check_case(ctx: core.Ctx, case: Case, lean_batch: list, passes: bool = False
         if a[1] == "raise" and b[1] == "raise" and a[0] == "match":
             ctx.count("probe.rewrite-both-raise")
     ctx.count("probes", case.n)
+    if case.p is not None:
+        h = P.hdr_of(case.p)
+        if h != P.HDR_DEFAULT:
+            ctx.count("hdr.non-default")
+            ctx.count("hdr.benefit=" + (str(h["benefit"]) if h["benefit"] in (0, 1, 32767, 65535) else "other"))
+            ctx.count("hdr.sym=" + (h["sym"] if h["sym"] in ("matcher", "rewriters", "pdl_generated_rewriter") else "none" if h["sym"] is None else "other"))
+            if matched:
+                ctx.count("hdr.non-default-and-matches")
+                if h["benefit"] == 0:
+                    ctx.count("hdr.benefit=0-and-matches")
+                if h["sym"] == "matcher":
+                    ctx.count("hdr.sym=matcher-and-matches")
+    if case.pl is not None and any({n for n, _ in o["attrs"]} & {n for n, _ in o["props"]} for o in case.pl["ops"]):
+        ctx.count("case.attr-and-prop-same-name")
     if case.walk.get("pdl") == "raise StepLimit":
         ctx.count("walker.step-limit")
     if matched >= 2:
@@ -637,7 +665,9 @@ def run_lean(ctx: core.Ctx, batch: list[Case]) -> None:
         lines += l
     out = ctx.model("pdl", lines)
     for c, I, at in meta:
-        got = out[at + 3: at + 3 + 2 * c.n]
+        if out[at + LEAN_PRE - 1] != "ok":
+            raise core.InfraError("Lean model `pdl` refused the header line: " + out[at + LEAN_PRE - 1])
+        got = out[at + LEAN_PRE: at + LEAN_PRE + 2 * c.n]
         # ops of real dialects get default properties / are checked by their verifiers when the rewrite creates them:
         # outside the specification, so only the match is compared there (the two paths are still compared in full)
         foreign = any(a[0] == "op" and not a[1].startswith("test.") and P.canon_opname(a[1]) != "builtin.unregistered"
@@ -674,7 +704,7 @@ def run_lean(ctx: core.Ctx, batch: list[Case]) -> None:
                 ctx.mismatch("correspondence:C27/apply_wf", {**case_json(c), "probe_op": i}, None, {"lean": ga},
                              "Lean apply produced a dangling use (contradicts apply_wf)")
         if c.drive is not None:
-            check_drive(ctx, c, I, out[at + 3 + 2 * c.n])
+            check_drive(ctx, c, I, out[at + LEAN_PRE + 2 * c.n])
 
 
 def check_drive(ctx: core.Ctx, c: Case, I: P.Interner, lean: str) -> None:
@@ -768,8 +798,15 @@ def corpus_cases(ctx: core.Ctx, per_pattern: int):
         p = P.extract_pattern(pats[0])
         ctx.count("corpus.patterns")
         ctx.count("corpus.in-fragment" if p is not None else "corpus.outside-fragment")
+        # the same pattern under another header (benefit / symbol name): one extra case per corpus pattern
+        h = G.gen_header(rng)
+        while h == P.HDR_DEFAULT or (p is not None and h == P.hdr_of(p)):
+            h = G.gen_header(rng)
+        htext = P.with_header(text, h)
+        hp = {**p, "hdr": h} if p is not None else None
         if payload is not None:
             yield Case(p, text, payload, "corpus:" + origin)
+            yield Case(hp, htext, payload, "corpus:" + origin + ":header")
         if p is None:
             for _ in range(per_pattern):
                 try:
@@ -782,6 +819,8 @@ def corpus_cases(ctx: core.Ctx, per_pattern: int):
                     ctx.count("corpus.payload-rejected")
                     continue
                 yield Case(None, text, P.payload_text(pl), "corpus:" + origin)
+                if _ == 0:
+                    yield Case(None, htext, P.payload_text(pl), "corpus:" + origin + ":header")
             continue
         made = 0
         for _ in range(per_pattern * 6):
@@ -798,6 +837,8 @@ def corpus_cases(ctx: core.Ctx, per_pattern: int):
                 continue
             made += 1
             yield Case(p, text, P.payload_text(pl), "corpus:" + origin)
+            if made == 1:
+                yield Case(hp, htext, P.payload_text(pl), "corpus:" + origin + ":header")
 
 
 def selftest(ctx: core.Ctx, n: int) -> None:
@@ -809,7 +850,7 @@ def selftest(ctx: core.Ctx, n: int) -> None:
         pm = P.parse(P.pattern_text(p))
         pat = [o for o in pm.walk() if isinstance(o, pdl.PatternOp)][0]
         q = P.extract_pattern(pat)
-        if q is None or not _same_pattern(p, q):
+        if q is None or P.hdr_of(q) != P.hdr_of(p) or not _same_pattern(p, q):
             raise core.InfraError("pattern emitter/extractor self-test failed: " + json.dumps(p))
         pl, _ = G.gen_payload(rng, p)
         if G.payload_well_formed(pl):
@@ -923,9 +964,9 @@ def replay(ctx: core.Ctx, body: dict) -> int:
         lines, I = lean_lines(case)
         out = ctx.model("pdl", lines)
         for i in range(case.n):
-            print(f"lean op {i}: {out[3 + 2 * i]} | {out[4 + 2 * i]}   (reference: {expected_lean(case, I, i, 'ref')})")
+            print(f"lean op {i}: {out[LEAN_PRE + 2 * i]} | {out[LEAN_PRE + 1 + 2 * i]}   (reference: {expected_lean(case, I, i, 'ref')})")
         if case.drive is not None:
-            print(f"lean driveW: {out[3 + 2 * case.n]}")
+            print(f"lean driveW: {out[LEAN_PRE + 2 * case.n]}")
     ds = differences(case)
     for d in ds:
         print("DIFFERENCE:", classify(case, d)[:2], {k: v for k, v in d.items() if k in ("where", "op")})
@@ -948,10 +989,10 @@ META["text"] = (
     "The two real paths are NOT modelled. Per run, every operation of every payload is probed with the interpreted path "
     "(PDLMatcher / PDLRewritePattern), the compiled path (ConvertPDLToPDLInterpPass + PDLInterpRewritePattern) and the Lean "
     "specification: match decision, the full binding (interpreted path) and the canonical payload after the single rewrite are "
-    "compared three ways; an independent Python reference (constraint collection along access paths, then agreement checks) "
-    "arbitrates and names the violated constraint; the payloads after greedy application (PatternRewriteWalker with a step "
+    "compared three ways (properties and discardable attributes told apart); an independent Python reference (constraint "
+    "collection along access paths, then agreement checks) arbitrates and names the violated constraint; the payloads after greedy application (PatternRewriteWalker with a step "
     "limit) and after the passes apply-pdl{pdl_file} vs convert-pdl-to-pdl-interp + apply-pdl-interp{pdl_interp_file} are "
-    "compared between the paths. Nine defects found this way are repaired in /repo (regression inputs in harness/corpus/C27 are "
+    "compared between the paths. Eleven defects found this way are repaired in /repo (regression inputs in harness/corpus/C27 are "
     "replayed first on every run); two known findings remain (see known_findings.json). "
     "DRIVER: XdslModel/PDL.lean also models PatternRewriteWalker on a block of region-free ops (driveWith / driveW: worklist "
     "as a LIFO stack without duplicates, populate in program or reverse order, listener pushes of created ops / users of "
@@ -962,7 +1003,13 @@ META["text"] = (
     "(chain_forward / chain_reverse: program order and reverse order end with different payloads for root(prod(x)) -> x on a "
     "chain, so the drivers of the two passes must agree for the property to hold). Per run the passes apply-pdl and "
     "convert-pdl-to-pdl-interp + apply-pdl-interp themselves are run on def-use chains of overlapping match sites of "
-    "self-overlapping, non-confluent patterns and compared with each other, with the Python reference driver and with driveW."
+    "self-overlapping, non-confluent patterns and compared with each other, with the Python reference driver and with driveW. "
+    "HEADER: the model's PatternOp carries the header of the pdl.pattern op (benefit, symbol name); header_irrelevant: match, "
+    "single rewrite and greedy application do not depend on it (by construction: the specification cannot read it); every "
+    "generated pattern and one variant of every corpus pattern is run under a drawn header (benefit 0 / 1 / 16-bit boundary "
+    "values, names incl. @matcher, @rewriters, @pdl_generated_rewriter) on both real paths against this header-blind "
+    "denotation. property_shadows_attribute: the named attribute of an op that has a property and an attribute of one name "
+    "is the property (payloads with such ops are generated)."
 )
 META["level_note"] = (
     "The predicate-tree compiler (conversion.py, 2.6k lines) and the pdl_interp interpreter are modelled by nothing; the "
@@ -1007,6 +1054,11 @@ META["rule"] = (
     "under a root, so created ops match again and visiting created ops / walking to a fixpoint is observable), only ops "
     "that are never trivially dead, run through both real passes; the "
     "other generated payloads get overlapping instances with probability 0.3 per extra instance. "
+    "HEADER of every generated pattern: default `: benefit(1)` (3 of 10) or benefit ∈ {0, 1, 2, 3, 42, 255, 256, 32767, 32768, "
+    "65534, 65535} × symbol name ∈ {none, pat, matcher, rewriter, rewriters, pdl_generated_rewriter(_0), finalize, a.b}; every "
+    "corpus pattern additionally once under a drawn non-default header. Payload ops with an attribute AND a property of the "
+    "same name (prop1..3 of the test ops, any name on unregistered ops; the looked-at copy or the shadowed copy carries the "
+    "fitting value). Payload forms distinguish properties from attributes. "
     "regression = minimal failing inputs of the repaired defects and of the known findings. Non-trivial = at least one probed "
     "op matches and at least one does not; distinct = distinct (pattern, payload)."
 )
